@@ -120,6 +120,11 @@ func (g *gen) execOp(sid int, gs []ax.GView, allowShell bool) *ax.Op {
 	if !allowShell {
 		shell = false
 	}
+	if g.full {
+		// a real pty shell is exec'd with the command as an argument: it cannot carry a NUL byte
+		// (the direct level keeps NUL commands for checkCmd)
+		cmd = strings.ReplaceAll(cmd, "\x00", "0")
+	}
 	return &ax.Op{Kind: "EX", Sid: sid, Cmd: cmd, Shell: shell, T: g.clock(gs)}
 }
 
@@ -189,6 +194,9 @@ func direct(seed uint64, pool [][32]byte, class string) {
 			// repeats happen because commands are drawn from a small set and clocks from boundaries
 			g.do(g.execOp(sid, gs, true))
 			g.nt = true
+			if _, _, now := g.w.Sessions[sid].VS.State(); len(now) == 1 && now[0].GrantType == 5 {
+				continue // what is left is a lone Acme grant: the tube switch would ignore the exec tube
+			}
 			if r.Chance(35) { // immediate repeat of the same request: single use
 				last := *g.ops[len(g.ops)-1]
 				if r.Chance(50) {
